@@ -70,6 +70,15 @@ Placed(p, b, d, re, re2, sfx) ==
 Re(p, k) == IF HasKey(p, k) THEN p[k] ELSE e[k]
 Undecided == Verdict("free", "-", <<>>, FALSE)
 
+\* The frame (current, rdlen) given to the decoder must lie inside the buffer: "ov" declared one octet
+\* more than the buffer holds, "be" started one octet past its end.  Decode says err for both (the
+\* declared RDATA length is not available), so the implementation must refuse, with a FormError.
+Framed(b) ==
+    /\ C("HasFrameProbes", HasKey(e, "ov") /\ HasKey(e, "be"))
+    /\ C("DeclaredLengthAvailable", Decode(ty, PRE \o b, Len(PRE), Len(b) + 1, NoOrigin).res = "err" => e.ov.res = "err")
+    /\ C("StartInsideBuffer", Decode(ty, PRE \o b, Len(PRE) + Len(b) + 1, 0, NoOrigin).res = "err" => e.be.res = "err")
+    /\ C("FormError@frame", (e.ov.res = "err" => e.ov.formerr) /\ (e.be.res = "err" => e.be.formerr))
+
 TDec ==
     /\ e.op = "dec"
     /\ LET b == e.b
@@ -84,6 +93,7 @@ TDec ==
           /\ Placed(e, b, d, IF e.res = "ok" THEN e.reenc ELSE <<>>, IF e.res = "ok" THEN e.reenc2 ELSE <<>>, "")
           /\ C("HasPlacements", HasKey(e, "tl") /\ HasKey(e, "wh"))
           /\ Placed(e.tl, b, d, IF e.tl.res = "ok" THEN Re(e.tl, "reenc") ELSE <<>>, IF e.tl.res = "ok" THEN Re(e.tl, "reenc2") ELSE <<>>, "@tail")
+          /\ Framed(b)
           /\ Placed(e.wh, b, dw, IF e.wh.res = "ok" THEN Re(e.wh, "reenc") ELSE <<>>, IF e.wh.res = "ok" THEN Re(e.wh, "reenc2") ELSE <<>>, "@whole")
     /\ Adv
 
@@ -92,6 +102,7 @@ TDec ==
 \* clauses hold, and the generic form re-encodes the octets unchanged
 TForeign ==
     /\ e.op = "foreign"
+    /\ Framed(e.b)
     /\ C("SameVerdictBothApis", e.pres = e.res /\ e.same)
     /\ IF e.res = "err" THEN C("FormError", e.formerr)
        ELSE /\ C("ConsumedExactly", e.cons = Len(e.b))
